@@ -307,8 +307,9 @@ func (x c16Sender) Send(p *layers.BFD) error {
 		p.DetectMultiplier == e.s.DetectMult && !p.Poll && !p.Final && !p.Demand && !p.AuthPresent &&
 		!p.Multipoint && p.RequiredMinEchoRxInterval == 0
 	verif.Assert("sent-packet-well-formed", wellFormed)
-	// the send timer was re-armed before sending (periodic transmission never stops)
-	verif.Assert("send-timer-keeps-running", e.timers[c16Send].armed)
+	// the send timer was re-armed before sending (periodic transmission never stops); it may already
+	// have been made to expire again by the script
+	verif.Assert("send-timer-keeps-running", e.timers[c16Send].armed || len(e.timers[c16Send].C) > 0)
 	if e.awaitSend {
 		// recovery phase: the packet reaches the well-behaved peer, which follows the RFC table
 		e.awaitSend = false
